@@ -105,59 +105,75 @@ def single (c : UInt8) : Option TT :=
   else if c == 60 then some .T_LT else if c == 62 then some .T_GT
   else none
 
+abbrev StepRes := Except LexErr (Bytes × Option Tok × Bool)
+
+/-- character literal; `cs` is the input after the opening quote -/
+def lexCharLit (cs : Bytes) : StepRes :=
+  match cs with
+  | [] => .error .unterminatedChar
+  | d :: ds =>
+    if d == 92 then
+      match ds with
+      | [] => .error .incompleteEscape
+      | e :: es =>
+        match es with
+        | q :: rest => if q == 39 then .ok (rest, some ⟨.T_NUMBER, intDec (charEscape e)⟩, false) else .error .unterminatedChar
+        | [] => .error .unterminatedChar
+    else
+      match ds with
+      | q :: rest => if q == 39 then .ok (rest, some ⟨.T_NUMBER, intDec d.toNat⟩, false) else .error .unterminatedChar
+      | [] => .error .unterminatedChar
+
+/-- string literal; `cs` is the input after the opening quote -/
+def lexStringLit (cs : Bytes) : StepRes :=
+  match scanString [] cs with
+  | none => .error .unterminatedString
+  | some (raw, rest) => .ok (rest, some ⟨.T_STRING, raw⟩, false)
+
+/-- number; `c` is a digit, or `-` followed by a digit -/
+def lexNumber (c : UInt8) (cs : Bytes) : StepRes :=
+  let body := if c == 45 then cs else c :: cs
+  let sign : Bytes := if c == 45 then [45] else []
+  let ds := body.takeWhile isDigitB
+  let r := body.dropWhile isDigitB
+  match r with
+  | p :: f :: r' =>
+    if p == 46 && isDigitB f then
+      let fs := (f :: r').takeWhile isDigitB
+      .ok ((f :: r').dropWhile isDigitB, some ⟨.T_FLOAT, sign ++ ds ++ [46] ++ fs⟩, false)
+    else .ok (r, some ⟨.T_NUMBER, sign ++ ds⟩, false)
+  | _ => .ok (r, some ⟨.T_NUMBER, sign ++ ds⟩, false)
+
+def lexIdent (c : UInt8) (cs : Bytes) : StepRes :=
+  let w := (c :: cs).takeWhile isIdCharB
+  .ok ((c :: cs).dropWhile isIdCharB, some ⟨keywordOrIdent w, w⟩, false)
+
+/-- operators and punctuation (two-character forms first); anything else is an "Unknown character" -/
+def lexOp (c : UInt8) (cs : Bytes) : StepRes :=
+  let n := cs.head?
+  if c == 58 && n == some 58 then .ok (cs.tail, some ⟨.T_DOUBLE_COLON, []⟩, false)
+  else if c == 45 && n == some 62 then .ok (cs.tail, some ⟨.T_ARROW, []⟩, false)
+  else if c == 61 && n == some 62 then .ok (cs.tail, some ⟨.T_ARROW, []⟩, false)
+  else if c == 61 && n == some 61 then .ok (cs.tail, some ⟨.T_EQ, []⟩, false)
+  else if c == 61 then .ok (cs, some ⟨.T_ASSIGN, []⟩, false)
+  else if c == 33 && n == some 61 then .ok (cs.tail, some ⟨.T_NE, []⟩, false)
+  else if c == 60 && n == some 61 then .ok (cs.tail, some ⟨.T_LE, []⟩, false)
+  else if c == 62 && n == some 61 then .ok (cs.tail, some ⟨.T_GE, []⟩, false)
+  else match single c with
+    | some t => .ok (cs, some ⟨t, []⟩, false)
+    | none => .ok (cs, none, true)
+
 /-- One scanning step on a non-empty input: the rest of the input, the token produced (if any), and
     whether an "Unknown character" diagnostic was printed. -/
-def lexStep (c : UInt8) (cs : Bytes) : Except LexErr (Bytes × Option Tok × Bool) :=
+def lexStep (c : UInt8) (cs : Bytes) : StepRes :=
   if isSpaceB c then .ok (cs, none, false)
   else if c == 35 then .ok (skipLine cs, none, false)
   else if c == 47 && cs.head? == some 42 then .ok (skipBlock cs.tail, none, false)
-  else if c == 39 then
-    match cs with
-    | [] => .error .unterminatedChar
-    | d :: ds =>
-      if d == 92 then
-        match ds with
-        | [] => .error .incompleteEscape
-        | e :: es =>
-          match es with
-          | q :: rest => if q == 39 then .ok (rest, some ⟨.T_NUMBER, intDec (charEscape e)⟩, false) else .error .unterminatedChar
-          | [] => .error .unterminatedChar
-      else
-        match ds with
-        | q :: rest => if q == 39 then .ok (rest, some ⟨.T_NUMBER, intDec d.toNat⟩, false) else .error .unterminatedChar
-        | [] => .error .unterminatedChar
-  else if c == 34 then
-    match scanString [] cs with
-    | none => .error .unterminatedString
-    | some (raw, rest) => .ok (rest, some ⟨.T_STRING, raw⟩, false)
-  else if isDigitB c || (c == 45 && (cs.head?.map isDigitB).getD false) then
-    let body := if c == 45 then cs else c :: cs
-    let sign : Bytes := if c == 45 then [45] else []
-    let ds := body.takeWhile isDigitB
-    let r := body.dropWhile isDigitB
-    match r with
-    | p :: f :: r' =>
-      if p == 46 && isDigitB f then
-        let fs := (f :: r').takeWhile isDigitB
-        .ok ((f :: r').dropWhile isDigitB, some ⟨.T_FLOAT, sign ++ ds ++ [46] ++ fs⟩, false)
-      else .ok (r, some ⟨.T_NUMBER, sign ++ ds⟩, false)
-    | _ => .ok (r, some ⟨.T_NUMBER, sign ++ ds⟩, false)
-  else if isIdStartB c then
-    let w := (c :: cs).takeWhile isIdCharB
-    .ok ((c :: cs).dropWhile isIdCharB, some ⟨keywordOrIdent w, w⟩, false)
-  else
-    let n := cs.head?
-    if c == 58 && n == some 58 then .ok (cs.tail, some ⟨.T_DOUBLE_COLON, []⟩, false)
-    else if c == 45 && n == some 62 then .ok (cs.tail, some ⟨.T_ARROW, []⟩, false)
-    else if c == 61 && n == some 62 then .ok (cs.tail, some ⟨.T_ARROW, []⟩, false)
-    else if c == 61 && n == some 61 then .ok (cs.tail, some ⟨.T_EQ, []⟩, false)
-    else if c == 61 then .ok (cs, some ⟨.T_ASSIGN, []⟩, false)
-    else if c == 33 && n == some 61 then .ok (cs.tail, some ⟨.T_NE, []⟩, false)
-    else if c == 60 && n == some 61 then .ok (cs.tail, some ⟨.T_LE, []⟩, false)
-    else if c == 62 && n == some 61 then .ok (cs.tail, some ⟨.T_GE, []⟩, false)
-    else match single c with
-      | some t => .ok (cs, some ⟨t, []⟩, false)
-      | none => .ok (cs, none, true)
+  else if c == 39 then lexCharLit cs
+  else if c == 34 then lexStringLit cs
+  else if isDigitB c || (c == 45 && (cs.head?.map isDigitB).getD false) then lexNumber c cs
+  else if isIdStartB c then lexIdent c cs
+  else lexOp c cs
 
 /-- the scanner loop; `fuel` bounds the number of steps (`lex` passes the input length, which
     `lexStep_progress` shows is always enough) -/
